@@ -130,12 +130,16 @@ void check_solution(const char * kind, const Problem & p, const Ref & R, const J
   const VecL d   = p.d.cast<LD>();
   const VecL Dx  = d.cwiseProduct(R.dx);
   const LD nrm   = Dx.norm();
-  LD ref = 0, qy = 0;
+  LD ref = 0, qy = 0, qx = 0;
   if (nrm > 0) {
     const VecL q = d.cwiseProduct(Dx);
     const VecL y = Eigen::LDLT<MatL>(R.H).solve(q);
     ref          = -q.dot(y) / nrm;
     qy           = q.norm() * y.norm() / nrm;  // size of the terms of q'H^{-1}q before they cancel
+    // q = D^2 dx inherits the error eps cond |dx| of the solve, weighted by d_max^2: with a badly scaled D the small
+    // components of dx that carry the large weights are noise (3x5, d = (22, 1e-3, 1, 1e-3, 1e-3): dx_0 = -5.4e-8 is
+    // known to 2e-4 only and dphi is 50% off although dx is accurate to 1e-9 norm-wise)
+    qx = d.cwiseAbs2().maxCoeff() * R.dx.norm() * y.norm() / nrm;
   }
   // relative accuracy of dphi: conditioning of the solve and of the product J'r (cancellation)
   const LD gcanc = R.g.norm() > 0 ? JnRn / R.g.norm() : std::numeric_limits<LD>::infinity();
@@ -143,7 +147,8 @@ void check_solution(const char * kind, const Problem & p, const Ref & R, const J
   if (relt < 1e-2L) {
     // dphi = -q'H^{-1}q / |D dx| with q = D^2 dx: when |D dx| barely depends on lambda the quadratic form is small
     // against |q| |H^{-1} q| and can only be computed relative to the latter
-    const LD sc = std::max<LD>({std::abs(ref), qy, 1e-300L});
+    const LD sc = std::max<LD>({std::abs(ref), qy, 1e-300L}) + 100 * R.cond * 2.3e-16L * qx / relt;
+    ctx.label(100 * R.cond * 2.3e-16L * qx > relt * std::max<LD>(std::abs(ref), qy) ? "dphi:tolerance-dominated-by-D-scaling" : "dphi:tolerance-relative-to-value");
     if (nrm > 0 && nrm > 1e-9L * (R.g.norm() / std::max<LD>(R.Hnorm, 1e-300L))) {
       ctx.le(std::string(kind) + ": dphi == closed-form derivative", static_cast<double>(std::abs(static_cast<LD>(dphi) - ref) / sc), static_cast<double>(relt));
       // independent of the closed form: complex-step derivative of phi(lambda) = sqrt(sum (d_i x_i(lambda))^2)
